@@ -11,13 +11,14 @@ static const int MS[] = {2, 3, 4, 5, 7, 8, 16, 17, 64, 1000, 1024, 65537, 1 << 2
 static std::vector<double> alphas(int M) { return {0., std::pow(2., -30), std::pow(2., -25), std::min(std::pow(2., -15), 1. / (20. * M)), 1. / (40. * M), 1. / (20. * M)}; }
 
 static void lwe_cases(int K) {
-    for (int n : {1, 2, 7, 8, 9, 500, 630, 1024, 1025}) for (int M : MS) for (int ai = 0; ai < 6; ai++) for (int k = 0; k < K; k++) {
+    for (int n : {1, 2, 7, 8, 9, 152, 250, 500, 630, 1023, 1024, 1025}) for (int M : MS) for (int ai = 0; ai < 6; ai++) for (int k = 0; k < K; k++) {
         double alpha = alphas(M)[ai];
         std::string key = fmt("lwe/n=%d/M=%d/alpha=%d/seed=%d", n, M, ai, k);
         if (!take(key)) continue; if (deadline()) return;
         current(key); seed_gen(key, k);
         LweParams *p = new_LweParams(n, alpha, 0.25); LweKey *sk = new_LweKey(p); lweKeyGen(sk); LweSample *c = new_LweSample(p);
-        for (int m : messages(M)) {
+        std::vector<int> msgs = messages(M); if (M > 64 && n <= 8 && ai <= 1) { uint64_t xm = M * 31 + n; for (int q = 0; q < 3000; q++) msgs.push_back((int)(splitmix(xm) % (uint64_t)M)); }   // large message spaces: 3000 seeded messages more on the small dimensions
+        for (int m : msgs) {
             Torus32 mu = modSwitchToTorus32(m, M);
             lweSymEncrypt(c, mu, alpha, sk);
             Torus32 d = lweSymDecrypt(c, sk, M);
